@@ -164,14 +164,16 @@ CLAIMED = {
         "technique": "Coq proof (all responses) + schedule-exhaustive single-preemption runs with whole-sandbox snapshot oracle",
     },
     "C04": {
-        "text": "Machine-checked: emulated walk = kernel reference walk on every well-formed static FS within 40 link traversals (C01); every "
+        "text": "Machine-checked: C04_backends_agree -- the two backends as programs (Resolver::resolve with the same root, path, trailing "
+                "mode and resolver flags), executed on the static kernel model over any well-formed tree, return descriptors open on the "
+                "same object or fail with the same errno, within 40 link traversals; every "
                 "parent-based operation is the backend's lookup of the parent followed by a backend-independent continuation (program "
                 "equivalence without funext); refused open flags and NUL paths are refused identically before any lookup. Direct differential "
                 "(no model): every Root operation on random trees run with and without openat2 -- outcome, errno, object, F_GETFL&~O_NOFOLLOW, "
                 "FD_CLOEXEC and the complete resulting tree compared.",
         "note": COMMON_NOTE + "Partial: equivalence of partial lookups (symlink stack vs ancestor probing, used by mkdir_all) and of the final "
                 "trees is decided by the differential only. Known finding F-N (O_DIRECTORY bit of F_GETFL when the result is the root itself).",
-        "technique": "Coq proof (C01 simulation + program-equivalence factorisation) + two-backend differential on real executions",
+        "technique": "Coq proof (refinement of both backends' programs to the reference walk + program-equivalence factorisation) + two-backend differential on real executions",
     },
     "C13": {
         "text": "Machine-checked theorems over all kernel answers: remove_all refuses '.', '..' and names with '/' before touching anything; "
